@@ -395,6 +395,17 @@ def eval_lorenz(rp):
     with np.errstate(all='ignore'):
         valid = bool(np.all(share[:, 0] < frac))                # no single point carries the Lorenz fraction
     sel = np.random.default_rng(rp['sel'])
+    # history: an earlier call on an array of the same shape with the same NUMBER of axes but other axes (whatever its
+    # outcome) must not influence this call
+    try:
+        free = [a for a in range(nd) if a != senp]
+        alt = [a for a in free if a not in axes][:len(axes)] + [a for a in free if a in axes]
+        alt = alt[:len(axes)]
+        if sorted(alt) != sorted(axes) and len(alt) == len(axes):
+            alt_arg = tuple(a - nd for a in alt) if isinstance(axis, (tuple, list)) else alt[0] - nd
+            _call_lorenz(f, core.other_values(x), dict(rp, default_axis=False), alt_arg, sen)
+    except Exception:
+        pass
     try:
         out = np.asarray(_call_lorenz(f, x, rp, axis, sen))
     except Exception as ex:
